@@ -9,6 +9,7 @@ import DialsModel.Model.OverlayIO
 import DialsModel.Model.HeapIO
 import DialsModel.Model.ParseIO
 import DialsModel.Model.TfIO
+import DialsModel.Model.WrapIO
 
 open Dials Dials.Proto
 
@@ -57,6 +58,8 @@ def handle (ss : Session) (line : String) : Session × String :=
   | "hp" :: rest => (ss, Heap.handleHp rest)
   | "ps" :: rest => (ss, Parse.handlePs rest)
   | "tf" :: rest => (ss, Tf.handleTf rest)
+  | "wr" :: rest => (ss, Wrap.handleWr rest)
+  | "bk" :: rest => (ss, Wrap.handleBk rest)
   | "rt" :: rest =>
     let (st, out) := Runtime.handleRt ss.rt rest
     ({ ss with rt := st }, (out.replace "\n" " "))
